@@ -125,6 +125,12 @@ def oracle(case, run):
                 if prev['waits'][k] and not cond:
                     yield ('poller-returned-early', {'kind': ev[1]},
                            'the %s poller returned while its wait was on and its condition false' % ev[1], i)
+            elif (prev['handles'][k] == 'Polling' and o['handles'][k] == 'Polling' and o['out'] == 'Ok'
+                  and FC.cond_holds(ev[1], ev[2:5])):
+                yield ('poller-ignores-condition', {'kind': ev[1]},
+                       'the %s poller evaluated its loop condition in a world where its condition holds '
+                       '(busy, doing, queued = %s) and keeps waiting: the submission never takes effect'
+                       % (ev[1], ev[2:5]), i)
         for a, c in o['hops']:
             if (a, c) == ('running', 'updating'):
                 since_reset_updates += 1
